@@ -894,6 +894,7 @@ func (fr *freshCtx) freshContainer(v ssa.Value, at ssa.Instruction, depth int) (
 		}
 		// find stores to the same address (structurally) of a fresh container
 		found := false
+		var freshStores []ssa.Instruction
 		for _, b := range fr.fn.Blocks {
 			for _, in := range b.Instrs {
 				st, ok := in.(*ssa.Store)
@@ -903,9 +904,24 @@ func (fr *freshCtx) freshContainer(v ssa.Value, at ssa.Instruction, depth int) (
 				if ok2, _ := fr.freshContainer(st.Val, st, depth+1); !ok2 {
 					continue
 				}
+				freshStores = append(freshStores, st)
 				if instrDominates(st, x) || guardedByNonEmpty(st, x.X) {
 					found = true
 				}
+			}
+		}
+		if !found && len(freshStores) > 1 {
+			// several fresh stores on different branches: every path from entry to the use passes one of them
+			isFresh := func(in ssa.Instruction) bool {
+				for _, s := range freshStores {
+					if s == in {
+						return true
+					}
+				}
+				return false
+			}
+			if existsPath(fr.fn, nil, func(in ssa.Instruction) bool { return in == ssa.Instruction(x) }, isFresh) == nil {
+				found = true
 			}
 		}
 		if found {
